@@ -373,6 +373,10 @@ def judge(chk, drv, obs, line, case, what, stats, corr_fail):
         chk.violation(f"C11 oracle: the argument was modified ({obs.outcome}) [{what}]",
                       dict(case, kind="mutated"))
         return
+    if obs.bad and case.get("frame_only"):
+        # unstructure of an object that is not a value of the type: only "never mutated" is claimed
+        chk.note("non-value-unstructure:aliases-ignored")
+        return
     if obs.bad:
         chk.violation(
             f"C11 oracle: the result shares argument container(s) {obs.bad} outside the documented "
@@ -521,8 +525,34 @@ def cfg_ok(cfg, w):
     return not (any(c.get("recursive") == "self" for c in w["classes"]) and (not cfg["gen"] or cfg["tuple"]))
 
 
+def sanitize(w):
+    """generator features that exist for other properties' mechanisms and are not part of the heap model:
+    identity attrs field converters (user code on the instantiation path) and bare `Final` annotations
+    (kept as `Final[T]`)"""
+    for c in w["classes"]:
+        for f in c["fields"]:
+            f.pop("idconv", None)
+            f.pop("bare_final", None)
+    return w
+
+
+def my_worlds(chk, drv, n_worlds):
+    G = gen.Gen(chk.rng)
+    made = attempts = 0
+    while made < n_worlds and attempts < n_worlds * 3:
+        attempts += 1
+        w = sanitize(G.world())
+        try:
+            S = Session(drv, w)
+        except Exception:  # noqa: BLE001
+            chk.note("world-rejected-by-python")
+            continue
+        made += 1
+        yield G, S, w
+
+
 def stream_plain(chk, drv, stats, corr_fail, n_worlds):
-    for G, S, w in streams.worlds(chk, drv, n_worlds):
+    for G, S, w in my_worlds(chk, drv, n_worlds):
         cache = {}
         for ty, x, _xv in streams.typed_values(chk, G, S, w, n_types=3, n_values=1, any_stable=False):
             chk.note("ty:" + (ty if isinstance(ty, str) else ty[0]))
@@ -551,14 +581,14 @@ def stream_plain(chk, drv, stats, corr_fail, n_worlds):
                     jv = S.R.val(j)
                 except Exception:  # noqa: BLE001
                     continue
-                spec = {"mode": "plain", "cfg": cfg, "dir": "un", "ty": ty, "arg": j}
+                spec = {"mode": "plain", "cfg": cfg, "dir": "un", "ty": ty, "arg": j, "frame_only": True}
                 chk.note("payload:junk-unstructure")
                 do_case(chk, drv, S, spec, stats, corr_fail, cache, arg=jv)
 
 
 def td_world(G, rng):
     """a world whose last class is a TypedDict with container-typed keys, plus override choices"""
-    w = G.world(n_classes=rng.randint(0, 2), kinds=("attrs", "dc"))
+    w = sanitize(G.world(n_classes=rng.randint(0, 2), kinds=("attrs", "dc")))
     ci = len(w["classes"])
     names = rng.sample(gen.FIELD_NAMES, rng.randint(1, 4))
     fields = []
@@ -623,7 +653,7 @@ def stream_tagged(chk, drv, stats, corr_fail, n_worlds):
     rng = chk.rng
     made = 0
     while made < n_worlds:
-        w = G.world(n_classes=rng.randint(2, 4), kinds=("attrs", "dc"))
+        w = sanitize(G.world(n_classes=rng.randint(2, 4), kinds=("attrs", "dc")))
         try:
             S = Session(drv, w)
         except Exception:  # noqa: BLE001
